@@ -419,6 +419,10 @@ pub struct EvEnv {
     pub hold_mutations: bool,
     /// Acknowledgements may be held for a step.
     pub hold_acks: bool,
+    /// Baseline latency of the update channel in rounds: an update message becomes deliverable
+    /// only this many client steps after the one that follows its server frame (0 = lock-step).
+    /// A different default schedule, still a legal one; deviations are explored around it.
+    pub update_latency: u32,
 }
 
 #[derive(Clone, Debug, Serialize, Default)]
@@ -712,6 +716,14 @@ impl EvCell {
                 _ => break,
             }
         }
+    }
+
+    /// Number of in-flight update messages old enough to be delivered under the baseline latency.
+    fn deliverable_updates(&self, x: &EvExec, c: usize) -> usize {
+        x.sim.clients[c].s2c[UPD]
+            .iter()
+            .filter(|m| m.frame + self.env.update_latency <= x.sim.server_frames)
+            .count()
     }
 
     fn events_in_flight_to_client(&self, x: &EvExec, c: usize) -> usize {
@@ -1218,7 +1230,7 @@ impl Scenario for EvCell {
                 Some(ChoicePoint::env("to-server", alts))
             }
             Phase::Upd(c) => {
-                let n = x.sim.clients[c].s2c[UPD].len();
+                let n = self.deliverable_updates(x, c);
                 let mut alts = vec![("all".to_string(), 0)];
                 for k in 1..=self.env.hold_updates.min(n) {
                     alts.push((format!("hold last {k} of {n}"), 1));
@@ -1300,10 +1312,10 @@ impl Scenario for EvCell {
             }
             Phase::Upd(c) => {
                 let label = self.next(x).unwrap().alts[alt].clone();
-                let n = x.sim.clients[c].s2c[UPD].len();
+                let n = self.deliverable_updates(x, c);
                 if label == "hold mutations" {
                     x.line.push_str(" mutations held;");
-                    x.sim.deliver_to_client(c, UPD, &Sel::All);
+                    x.sim.deliver_to_client(c, UPD, &Sel::Prefix(n));
                 } else {
                     let k = n - alt;
                     if alt > 0 {
